@@ -74,9 +74,12 @@ type Ident struct {
 }
 
 type Chain struct {
-	K      string  `json:"k"`
-	Mod    string  `json:"mod"`
-	Lay    string  `json:"lay"`
+	K   string `json:"k"`
+	Mod string `json:"mod"`
+	Lay string `json:"lay"`
+	// Ctx: what else the leaf statement carries and where it stands (mandatory, config false, status, if-feature,
+	// inside a choice, under a list, through a grouping ...); "" = a plain leaf of the container
+	Ctx    string  `json:"ctx"`
 	Idents []Ident `json:"idents"`
 	Levels []Level `json:"levels"`
 }
@@ -121,7 +124,7 @@ type typedefStmt struct {
 type renderer struct {
 	typedefs map[string][]typedefStmt // module -> typedef statements
 	memo     map[string]string        // (module, scope, built-in, levels so far) -> typedef name
-	n        int
+	cnt      map[string]int           // module -> typedefs named so far
 }
 
 func ref(ctxMod, m, n string) string {
@@ -153,7 +156,8 @@ func (r *renderer) typeStmt(ctxMod, name string, l Level, local bool) string {
 		b.WriteString(" base " + ref(ctxMod, l.IdBase.M, l.IdBase.N) + ";")
 	}
 	for _, m := range l.Members {
-		b.WriteString(" " + r.chainType(ctxMod, m, false, local))
+		// a member written in module b may reach its innermost typedef in module a (lay xmod), like a leaf's chain
+		b.WriteString(" " + r.chainType(ctxMod, m, m.Lay == "xmod" && ctxMod == "b", local))
 	}
 	if b.Len() == 0 {
 		return "type " + name + ";"
@@ -184,11 +188,12 @@ func (r *renderer) chainType(ctxMod string, c Chain, xmod, local bool) string {
 			tm, tlocal = "a", false
 		}
 		prefix, _ := json.Marshal(c.Levels[:i+1])
-		key := fmt.Sprintf("%s|%v|%s|%s", tm, tlocal, c.K, prefix)
+		key := fmt.Sprintf("%s|%v|%v|%s|%s", tm, tlocal, xmod && i > 0, c.K, prefix)
 		td, ok := r.memo[key]
 		if !ok {
-			r.n++
-			td = fmt.Sprintf("t%d", r.n)
+			// typedefs are numbered per module: a:t1 and b:t1 are different types with the same local name
+			r.cnt[tm]++
+			td = fmt.Sprintf("t%d", r.cnt[tm])
 			r.memo[key] = td
 			r.typedefs[tm] = append(r.typedefs[tm], typedefStmt{
 				text:  fmt.Sprintf("typedef %s { %s%s }\n", td, r.typeStmt(tm, name, l, tlocal), defStmt(l)),
@@ -207,9 +212,73 @@ func ContainerOf(mod string) string {
 	return "c"
 }
 
+// leafPlace renders leaf x<i> of a chain in its context and gives the data path of the leaf.  body is the text
+// between the braces of the leaf statement (type and default).  The context only adds what a leaf may carry
+// besides its type (mandatory, config, status, if-feature) or puts the leaf somewhere else in the container
+// (choice / case, list entry, presence container, grouping + uses, refine); needsFeature: the module must define
+// feature ft.
+func leafPlace(ctx string, i int, cont, body string) (stmt string, path []string, needsFeature bool) {
+	x := fmt.Sprintf("x%d", i)
+	leaf := func(extra string) string { return fmt.Sprintf("leaf %s { %s%s }", x, body, extra) }
+	path = []string{cont, x}
+	switch ctx {
+	case "", "plain":
+		stmt = leaf("")
+	case "mandatory":
+		stmt = leaf(" mandatory true;")
+	case "config-false":
+		stmt = leaf(" config false;")
+	case "state-mandatory":
+		stmt = leaf(" config false; mandatory true;")
+	case "deprecated":
+		stmt = leaf(" status deprecated;")
+	case "obsolete":
+		stmt = leaf(" status obsolete;")
+	case "if-feature":
+		stmt, needsFeature = leaf(" if-feature ft;"), true
+	case "mandatory-if-feature":
+		stmt, needsFeature = leaf(" if-feature ft; mandatory true;"), true
+	case "case":
+		stmt = fmt.Sprintf("choice ch%d { case k%d { %s } case o%d { leaf y%d { type string; } } }", i, i, leaf(""), i, i)
+	case "short-case":
+		stmt = fmt.Sprintf("choice ch%d { %s leaf y%d { type string; } }", i, leaf(""), i)
+	case "case-mandatory":
+		stmt = fmt.Sprintf("choice ch%d { case k%d { %s } case o%d { leaf y%d { type string; } } }", i, i, leaf(" mandatory true;"), i, i)
+	case "default-case":
+		stmt = fmt.Sprintf("choice ch%d { default k%d; case k%d { %s } case o%d { leaf y%d { type string; } } }", i, i, i, leaf(""), i, i)
+	case "list":
+		stmt = fmt.Sprintf("list l%d { key \"k\"; leaf k { type string; } %s }", i, leaf(""))
+		path = []string{cont, fmt.Sprintf("l%d", i), "e1", x}
+	case "list-mandatory":
+		stmt = fmt.Sprintf("list l%d { key \"k\"; leaf k { type string; } %s }", i, leaf(" mandatory true;"))
+		path = []string{cont, fmt.Sprintf("l%d", i), "e1", x}
+	case "presence":
+		stmt = fmt.Sprintf("container p%d { presence \"p\"; %s }", i, leaf(""))
+		path = []string{cont, fmt.Sprintf("p%d", i), x}
+	case "presence-mandatory":
+		stmt = fmt.Sprintf("container p%d { presence \"p\"; %s }", i, leaf(" mandatory true;"))
+		path = []string{cont, fmt.Sprintf("p%d", i), x}
+	case "uses":
+		stmt = fmt.Sprintf("grouping g%d { %s } uses g%d;", i, leaf(""), i)
+	case "uses-mandatory":
+		stmt = fmt.Sprintf("grouping g%d { %s } uses g%d;", i, leaf(" mandatory true;"), i)
+	case "refine-mandatory":
+		stmt = fmt.Sprintf("grouping g%d { %s } uses g%d { refine %s { mandatory true; } }", i, leaf(""), i, x)
+	default:
+		stmt = leaf(" verif-unknown-context " + quote(ctx) + ";")
+	}
+	return
+}
+
+// LeafPath is the data path of leaf x<i> (1-based) of chain c.
+func LeafPath(c Chain, i int) []string {
+	_, p, _ := leafPlace(c.Ctx, i, ContainerOf(c.Mod), "")
+	return p
+}
+
 // Render gives the YANG modules of a group of chains: module name -> text.
-// Chain i becomes leaf /c/x<i> (module a) or /d/x<i> (module b), in the order
-// given.
+// Chain i becomes leaf x<i> in container /c (module a) or /d (module b), in the
+// order given, placed as its context says.
 func Render(cs []Chain) map[string]string {
 	mods := map[string]string{}
 	names := []string{"a"}
@@ -224,18 +293,24 @@ func Render(cs []Chain) map[string]string {
 	if needB {
 		names = append(names, "b")
 	}
-	r := &renderer{typedefs: map[string][]typedefStmt{}, memo: map[string]string{}}
+	r := &renderer{typedefs: map[string][]typedefStmt{}, memo: map[string]string{}, cnt: map[string]int{}}
 	leaves := map[string][]string{}
+	feature := map[string]bool{}
 	for i, c := range cs {
 		last := c.Levels[len(c.Levels)-1]
 		ts := r.chainType(c.Mod, c, c.Lay == "xmod" && c.Mod == "b", c.Lay == "local")
-		leaves[c.Mod] = append(leaves[c.Mod], fmt.Sprintf("    leaf x%d { %s%s }\n", i+1, ts, defStmt(last)))
+		stmt, _, nf := leafPlace(c.Ctx, i+1, ContainerOf(c.Mod), ts+defStmt(last))
+		feature[c.Mod] = feature[c.Mod] || nf
+		leaves[c.Mod] = append(leaves[c.Mod], "    "+stmt+"\n")
 	}
 	for _, m := range names {
 		var b strings.Builder
 		fmt.Fprintf(&b, "module %s {\n  namespace \"urn:%s\";\n  prefix %s;\n", m, m, m)
 		if m == "b" {
 			b.WriteString("  import a { prefix a; }\n")
+		}
+		if feature[m] {
+			b.WriteString("  feature ft;\n")
 		}
 		for _, id := range idents {
 			if id.M != m {
@@ -268,6 +343,23 @@ func Render(cs []Chain) map[string]string {
 		mods[m] = b.String()
 	}
 	return mods
+}
+
+// findLeaf walks the compiled schema along the data path of a leaf (a list
+// answers any entry name with its entry node).
+func findLeaf(ms schema.ModelSet, path []string) (schema.Leaf, string) {
+	var n schema.Node = ms.Child(path[0])
+	for k := 1; n != nil && k < len(path); k++ {
+		n = n.Child(path[k])
+	}
+	if n == nil {
+		return nil, fmt.Sprintf("leaf /%s not found in the compiled schema", strings.Join(path, "/"))
+	}
+	leaf, ok := n.(schema.Leaf)
+	if !ok {
+		return nil, fmt.Sprintf("/%s is not a leaf", strings.Join(path, "/"))
+	}
+	return leaf, ""
 }
 
 // ProbeObs is what a caller of Type().Validate sees for one lexeme.
@@ -331,7 +423,7 @@ func compileMods(mods map[string]string) (ms schema.ModelSet, err error, panicke
 		}
 		trees[n] = pt
 	}
-	ms, err = compile.CompileParseTrees(nil, trees, compile.FeaturesFromNames(true), false, nil)
+	ms, err = compile.CompileParseTrees(nil, trees, compile.FeaturesFromNames(true, "a:ft", "b:ft"), false, nil)
 	return
 }
 
@@ -435,14 +527,9 @@ func Observe(cs []Chain, lexemes [][]Cps, keepYang bool) []Obs {
 		}
 		leaves := make([]schema.Leaf, len(cs))
 		for i, c := range cs {
-			cn, ln := ContainerOf(c.Mod), fmt.Sprintf("x%d", i+1)
-			cont := ms.Child(cn)
-			if cont == nil || cont.Child(ln) == nil {
-				return fail(fmt.Sprintf("leaf /%s/%s not found in the compiled schema", cn, ln), "")
-			}
-			leaf, ok := cont.Child(ln).(schema.Leaf)
-			if !ok {
-				return fail(fmt.Sprintf("/%s/%s is not a leaf", cn, ln), "")
+			leaf, why := findLeaf(ms, LeafPath(c, i+1))
+			if leaf == nil {
+				return fail(why, "")
 			}
 			leaves[i] = leaf
 		}
@@ -456,7 +543,7 @@ func Observe(cs []Chain, lexemes [][]Cps, keepYang bool) []Obs {
 			} else if has != o.HasDef || d != o.Def.String() {
 				return fail("repeated compilation of the same modules gave a different default", "")
 			}
-			leafPath := []string{ContainerOf(c.Mod), fmt.Sprintf("x%d", i+1)}
+			leafPath := LeafPath(c, i+1)
 			n := len(lexemes[i])
 			vpaths := make([][]string, n)
 			for k, lx := range lexemes[i] {
@@ -464,7 +551,7 @@ func Observe(cs []Chain, lexemes [][]Cps, keepYang bool) []Obs {
 			}
 			held := make([]kept, n)
 			for k := 0; k < n; k++ {
-				held[k].err, held[k].pan = validate(leaf.Type(), vpaths[k], vpaths[k][2])
+				held[k].err, held[k].pan = validate(leaf.Type(), vpaths[k], vpaths[k][len(vpaths[k])-1])
 			}
 			pass := make([]ProbeObs, n)
 			for k := 0; k < n; k++ {
@@ -497,7 +584,7 @@ func ObserveConcurrent(c Chain, lexemes []Cps, rounds, procs int, keepYang bool)
 		o.Yang = mods
 	}
 	n := len(lexemes)
-	leafPath := []string{ContainerOf(c.Mod), "x1"}
+	leafPath := LeafPath(c, 1)
 	vpaths := make([][]string, n)
 	for k, lx := range lexemes {
 		vpaths[k] = append(append([]string{}, leafPath...), lx.String())
@@ -517,12 +604,11 @@ func ObserveConcurrent(c Chain, lexemes []Cps, rounds, procs int, keepYang bool)
 			}
 			return o
 		}
-		cont := ms.Child(leafPath[0])
-		if cont == nil || cont.Child("x1") == nil {
-			o.Cerr = "leaf not found in the compiled schema"
+		leaf, why := findLeaf(ms, leafPath)
+		if leaf == nil {
+			o.Cerr = why
 			return o
 		}
-		leaf := cont.Child("x1").(schema.Leaf)
 		o.Compiled = true
 		d, has := leaf.Default()
 		o.HasDef, o.Def = has, ToCps(d)
@@ -541,7 +627,7 @@ func ObserveConcurrent(c Chain, lexemes []Cps, rounds, procs int, keepYang bool)
 					if n%7 == 0 {
 						k = (j + g*(n/procs+1)) % n
 					}
-					mine[k].err, mine[k].pan = validate(typ, vpaths[k], vpaths[k][2])
+					mine[k].err, mine[k].pan = validate(typ, vpaths[k], vpaths[k][len(vpaths[k])-1])
 				}
 				res[g] = mine
 			}(g)
